@@ -360,7 +360,7 @@ func runQuote(c *vp.Child) {
 	}
 	// (3) PRNG
 	r := c.Rand("quote")
-	n := c.Pick(80000, 1000000) / c.NB
+	n := c.Pick(80000, 2000000) / c.NB
 	for i := 0; i < n; i++ {
 		switch r.Intn(3) {
 		case 0:
@@ -478,7 +478,7 @@ func runTostring(c *vp.Child) {
 		}
 	}
 	r := c.Rand("tostring")
-	n := c.Pick(120000, 1500000) / c.NB
+	n := c.Pick(120000, 3000000) / c.NB
 	for i := 0; i < n; i++ {
 		if r.Intn(2) == 0 {
 			checkTostring(e, rt.IntValue(randInt64(r)))
